@@ -25,10 +25,17 @@ Note: the test is generated automatically by #[nutype] macro.
 "
     );
 
+    // With an exclusive bound (`greater` or `less`) equal boundaries leave no valid value at all.
+    let cmp = if validators.has_exclusive_bound() {
+        quote!(>)
+    } else {
+        quote!(>=)
+    };
+
     Some(quote!(
         #[test]
         fn should_have_consistent_lower_and_upper_boundaries() {
-            assert!(#upper >= #lower, #msg);
+            assert!(#upper #cmp #lower, #msg);
         }
     ))
 }
